@@ -115,6 +115,22 @@ def a_cache_key(ctx):
                   "messages of role '%s' contribute msg[%s] to the events but the key covers %s%s: two histories that differ only there (e.g. other generation options in the "
                   "context message) hit the same cache entry and the cached events of the other are used" % (role, sorted(fields), sorted(keyed), "" if full else " (filtered/partial)"),
                   line=fn.lineno)
+    # cached event lists are shared between conversations with a common prefix: every read must copy
+    reads = []
+    for n in ast.walk(tr):
+        if isinstance(n, ast.Subscript) and isinstance(n.ctx, ast.Load) and src(n.value) == "self.events_history_cache":
+            reads.append(n)
+        if isinstance(n, ast.Call) and isinstance(n.func, ast.Attribute) and n.func.attr in ("get", "pop", "setdefault") and src(n.func.value) == "self.events_history_cache":
+            reads.append(n)
+    ctx.floor("C15.a.cache-copy", LLMRAILS, "reads of cached event lists", len(reads), 1)
+    for r in reads:
+        par = getattr(r, "_parent", None)
+        copied = (isinstance(par, ast.Attribute) and par.attr == "copy" and isinstance(getattr(par, "_parent", None), ast.Call)) or \
+                 (isinstance(par, ast.Call) and src(par.func) in ("list", "copy.copy", "copy.deepcopy", "deepcopy"))
+        ctx.check("C15.a.cache-copy", LLMRAILS, qualname(enclosing_function(r)), first_line(par if par is not None else r), copied,
+                  "the cached event list is copied before use" if copied else
+                  "the cached event list is used without a copy: generate_async extends it in place, so the entry stored for a shared prefix picks up this conversation's later turns and another conversation continues from them",
+                  line=r.lineno)
     # the cache is only written with a key computed by the same function over the same messages
     gen = find_function(tr, "generate_async")
     stores = [n for n in ast.walk(tr) if isinstance(n, ast.Assign) and isinstance(n.targets[0], ast.Subscript) and src(n.targets[0].value) == "self.events_history_cache"]
@@ -222,6 +238,18 @@ def d_contextvars(ctx):
             and isinstance(c.func.value, ast.Name) and c.func.value.id in cvars]
     published = {c.func.value.id for c in sets}
     need = {"generation_options_var", "streaming_handler_var", "llm_stats_var", "raw_llm_request", "explain_info_var"}
+    # values that EVERY request defines must be (re)set on every path before the runtime runs: a conditional
+    # set leaves the previous request's value in the context of a task that serves requests sequentially
+    cfg = CFG(gen)
+    runs = [n for n in cfg.nodes if n.ast is not None and any(isinstance(c, ast.Call) and src(c.func) in ("self.runtime.generate_events", "self.runtime.process_events")
+                                                                for c in walk_no_nested(n.ast))]
+    for var in ("generation_options_var", "llm_stats_var", "raw_llm_request"):
+        snodes = [cfg.node_of(c) for c in sets if c.func.value.id == var]
+        ok = bool(snodes) and bool(runs) and all(cfg.must_pass(cfg.entry, r, snodes) for r in runs)
+        ctx.check("C15.d.reset-every-request", LLMRAILS, "LLMRails.generate_async", "%s.set on every path" % var, ok,
+                  "`%s` is set on every path before the runtime processes the request" % var if ok else
+                  "`%s.set(...)` is conditional: a request for which the condition is false runs with the value left by the previous request served in the same task (e.g. its llm_params or rails selection)" % var,
+                  line=gen.lineno)
     ctx.check("C15.d.contextvars", LLMRAILS, "LLMRails.generate_async", "request data published via ContextVar.set", need <= published,
               "options, streaming handler, LLM stats, raw request and explain info are published through context variables (%s)" % sorted(published), line=gen.lineno)
     for q, f in methods:
